@@ -104,6 +104,9 @@ func (eng *Engine) perPathInit(path string) bool {
 	if strings.HasPrefix(path, eng.RepoModule) {
 		return true
 	}
+	if eng.Cfg.FullSchemaLib && strings.HasPrefix(path, "github.com/jsightapi/jsight-schema-go-library") {
+		return true
+	}
 	switch path {
 	case "github.com/jsightapi/jsight-schema-go-library/bytes",
 		"github.com/jsightapi/jsight-schema-go-library/fs":
@@ -196,6 +199,18 @@ func init() {
 		"internal/reflectlite.TypeOf": func(ex *Exec, fr *frame, args []Val) Val {
 			return Iface{T: opaqueType, V: &Opaque{Kind: "rtype"}}
 		},
+		"(*sync.Pool).Get": func(ex *Exec, fr *frame, args []Val) Val {
+			p := (*args[0].(*Val)).(StructV)
+			nf := p[len(p)-1] // the New field
+			switch f := nf.(type) {
+			case *ssa.Function:
+				if f == nil {
+					return Iface{}
+				}
+			}
+			return ex.call(fr, nf, nil)
+		},
+		"(*sync.Pool).Put": func(ex *Exec, fr *frame, args []Val) Val { return nil },
 		"regexp.MustCompile": func(ex *Exec, fr *frame, args []Val) Val {
 			pat := concreteStr(args[0], "regexp pattern")
 			cell := new(Val)
